@@ -103,7 +103,7 @@ pub fn gen(seed: u64, thorough: bool, only: Option<u64>, out: &mut Out) {
     gen_special(out);
   }
   let groups: u64 = if thorough { 600 } else { 40 };
-  let ts: &[u32] = if thorough { &[0, 1, 2, 3, 4, 5, 8, 13, 16, 33, 64, 128, 256, 257] } else { &[0, 1, 2, 3, 5, 8] };
+  let ts: &[u32] = if thorough { &[0, 1, 2, 3, 4, 5, 8, 13, 16, 33, 64, 128, 256, 257, 9, 11, 63, 65] } else { &[0, 1, 2, 3, 5, 8, 9, 11, 16, 33, 64, 65] };
   for g in 0..groups {
     if let Some(o) = only {
       if o != g {
@@ -112,7 +112,8 @@ pub fn gen(seed: u64, thorough: bool, only: Option<u64>, out: &mut Out) {
     }
     let mut r = Prng::for_case(seed, "C16", g);
     let t = if g < ts.len() as u64 { ts[g as usize] } else { *r.pick(ts) };
-    let t = if !thorough && t > 8 { 8 } else { t };
+    // (quick tier: thresholds above 8 - odd ones, and 64 and its neighbours - only in the fixed leading groups)
+    let t = if !thorough && t > 8 && g >= ts.len() as u64 { 8 } else { t };
     // thresholds above 2^8 only in the fixed leading groups (a 256-share recovery costs the model ~40 s)
     let t = if t >= 256 && g >= ts.len() as u64 { 64 } else { t };
     let ml = if thorough && r.below(40) == 0 { 100_000 } else { *r.pick(LENS) };
